@@ -392,13 +392,13 @@ theorem reassoc_spec {kordf : List Var → List Var} (hk : SubsetOrder kordf) (n
 
 /-! ### the exchange step -/
 
-theorem firstExchangeable_mem (cf : MG Var) (os : List Var) : ∀ (cs : List Var) (c : Var),
-    firstExchangeable cf os cs = .ok (some c) → c ∈ cs
-  | [], c, h => by simp [firstExchangeable] at h
+theorem firstExchangeableIn_mem (cf : MG Var) (os all : List Var) : ∀ (cs : List Var) (c : Var),
+    firstExchangeableIn cf os all cs = .ok (some c) → c ∈ cs
+  | [], c, h => by simp [firstExchangeableIn] at h
   | x :: xs, c, h => by
-    unfold firstExchangeable at h
+    unfold firstExchangeableIn at h
     simp only [bind, Except.bind, pure, Except.pure] at h
-    cases hr : rule2Applies cf os x with
+    cases hr : rule2Applies cf os x (all.filter (fun k => k ≠ x)) with
     | error e => rw [hr] at h; cases h
     | ok b =>
       rw [hr] at h
@@ -409,7 +409,11 @@ theorem firstExchangeable_mem (cf : MG Var) (os : List Var) : ∀ (cs : List Var
         simp
       | false =>
         simp only [Bool.false_eq_true, if_false] at h
-        exact List.mem_cons_of_mem _ (firstExchangeable_mem cf os xs c h)
+        exact List.mem_cons_of_mem _ (firstExchangeableIn_mem cf os all xs c h)
+
+theorem firstExchangeable_mem (cf : MG Var) (os : List Var) (cs : List Var) (c : Var)
+    (h : firstExchangeable cf os cs = .ok (some c)) : c ∈ cs :=
+  firstExchangeableIn_mem cf os cs cs c h
 
 theorem interveneWith_name (o : Var) (iv : Iv) (k : Var) (h : interveneWith o iv = .ok k) : k.name = o.name := by
   unfold interveneWith at h
